@@ -393,6 +393,17 @@ func (s *sim) makeTx(v *view, spec TxSpec) *txInfo {
 			nf.Sub(nf, big.NewInt(x))
 		}
 		info.nodeFee = nf
+	} else if spec.Amt != 0 && spec.Amt != 5 && inTotal.IsInt64() {
+		// amounts that wrap: a verifier summing in 64-bit fixed point sees
+		// this fee (the Byzantine miner prices its coinbase accordingly, so
+		// that nothing but the amounts is wrong with the block)
+		var sum int64
+		for _, x := range facts.outs {
+			sum += x // wraps like Fixed64
+		}
+		if nf := inTotal.Int64() - sum; nf >= 0 {
+			info.nodeFee = big.NewInt(nf)
+		}
 	}
 	for _, o := range tx.Outputs() {
 		info.outs = append(info.outs, mOut{ph: o.ProgramHash, owner: s.actorOf(o.ProgramHash), value: int64(o.Value), cbHeight: -1})
